@@ -353,7 +353,24 @@ def floor_real(a):
         return a.numerator // a.denominator
     if a.kind == "int":
         return a
+    s_ = _int_valued(a.t, 3)
+    if s_ is not None:
+        return mk(s_, "int")
     return mk(z3.ToInt(a.t), "int")
+
+
+def _int_valued(t, depth):
+    """the int term of a real term that is syntactically integer-valued (to_real(i), integer
+    numerals, ite of such), else None"""
+    if z3.is_to_real(t):
+        return t.arg(0)
+    if z3.is_rational_value(t) and t.denominator_as_long() == 1:
+        return z3.IntVal(t.numerator_as_long())
+    if depth > 0 and z3.is_app_of(t, z3.Z3_OP_ITE):
+        a_, b_ = _int_valued(t.arg(1), depth - 1), _int_valued(t.arg(2), depth - 1)
+        if a_ is not None and b_ is not None:
+            return z3.If(t.arg(0), a_, b_)
+    return None
 
 
 def floordiv(a, b):
